@@ -35,6 +35,7 @@ package sstls
 //@ func Listen(net, address, subject, lifespan, certFile) (l, err)
 //@   locals net address subject lifespan certFile l cert err
 //@   props C05 C08
+//@   forbids the_cache_file_is_only_ever_read_here_or_written_whole_by_SaveCertificate: os.Remove os.RemoveAll os.Rename os.Truncate os.WriteFile os.Create os.OpenFile os.Chmod os.File.Write os.File.Truncate os.Mkdir os.MkdirAll
 //@   ghost cert tls.Certificate
 //@   ghost certErr bool = false
 //@   ghost fpv string = ""
@@ -53,6 +54,7 @@ package sstls
 //@ func GetCertificate(subject, dnsNames, ipAddresses, lifespan, certFile) (cert, err)
 //@   locals subject dnsNames ipAddresses lifespan certFile cert err certPEM keyPEM cert err err
 //@   props C08
+//@   forbids the_cache_file_is_only_ever_read_here_or_written_whole_by_SaveCertificate: os.Remove os.RemoveAll os.Rename os.Truncate os.WriteFile os.Create os.OpenFile os.Chmod os.File.Write os.File.Truncate os.Mkdir os.MkdirAll
 //@   ghost loaded tls.Certificate
 //@   ghost loadErr error = nil
 //@   ghost nLoad int = 0
@@ -75,6 +77,7 @@ package sstls
 //@ func LoadCachedCertificate(certFile) (cert, err)
 //@   locals certFile ta err certB keyB f cert leaf
 //@   props C08 C05
+//@   forbids the_cache_file_is_only_ever_read_here_or_written_whole_by_SaveCertificate: os.Remove os.RemoveAll os.Rename os.Truncate os.WriteFile os.Create os.OpenFile os.Chmod os.File.Write os.File.Truncate os.Mkdir os.MkdirAll
 //@   ghost readErr error = nil
 //@   ghost nRead int = 0
 //@   ghost pair tls.Certificate
